@@ -489,7 +489,9 @@ func seekToRangeStart(data io.Seeker, ra *ByteRange, size int64) error {
 			}
 			start = size + ra.From
 			if start < 0 {
-				return fmt.Errorf("invalid range: negative start bigger than the file size")
+				// RFC 9110 14.1.2: a suffix length larger than the
+				// representation selects the entire representation.
+				start = 0
 			}
 		} else {
 			start = ra.From
